@@ -355,6 +355,12 @@ def check(tier, seed, procs):
         'merge_puts_rejected_stale_head_409': counters.get('merge_rejected_409_head_moved', 0),
         'graphql_rollup_pages_beyond_first': counters.get('graphql_pages_beyond_first', 0),
         'midpass_webhook_windows_fired': counters.get('windows_fired', 0),
+        'approved_prs_left_unmerged_because_own_batch': {
+            k: counters.get(f'seen_unmerged_approved_pr_{k}', 0) for k in (
+                'own_batch_failed', 'own_batch_running', 'batch_only_for_older_head', 'batch_only_for_older_target')},
+        'merges_while_github_table_lacks_own_success_not_judged': {
+            'status_post_lost': counters.get('merges_while_github_shows_own_context_not_success_post_lost', 0),
+            'other': counters.get('merges_while_github_shows_own_context_not_success', 0)},
         'github_request_failures_injected': sum(x for k, x in counters.items() if k.startswith('github_faults_on_')),
         'ci_passes_aborted_by_github_failure': counters.get('ci_pass_aborted_by_github_failure', 0),
         'clauses_excused_change_inside_merging_pass': counters.get('clauses_excused_change_inside_merging_pass', 0),
@@ -374,6 +380,9 @@ def check(tier, seed, procs):
         vac = 'no mid-pass webhook window ever fired'
     elif counters.get('ci_pass_aborted_by_github_failure', 0) == 0:
         vac = 'no injected GitHub failure ever aborted a CI pass'
+    elif not all(counters.get(f'seen_unmerged_approved_pr_{k}', 0) for k in (
+            'own_batch_failed', 'own_batch_running', 'batch_only_for_older_head', 'batch_only_for_older_target')):
+        vac = 'never saw an approved PR whose own test batch had failed / was running / was for an older head or target'
     return {
         'coverage': cov,
         'violations': violations,
@@ -392,7 +401,9 @@ def check(tier, seed, procs):
             'watched branch is mergeable, not deployable, not frozen; PR authors are authorized users; undelivered GitHub '
             'webhooks of one kind coalesce; GitHub sends no status/check_run webhooks (the CI registers no handler for them)',
             '"its test batch" = a batch of the batch service with test=1 and source_sha = the head; it must have succeeded '
-            '("fully tested") with target_sha = the target ref at the instant of the merge',
+            '("fully tested") with target_sha = the target ref at the instant of the merge; for the CI\'s OWN status context '
+            'that batch result is the ground truth (not GitHub\'s status table: a lost status POST is counted, not judged); '
+            'for every external required context GitHub\'s table is the truth',
             'functional shims: gidgethub (exceptions, sansio.Event, routing.Router), prometheus_client, aiohttp_session, jinja2',
         ],
         'vacuous': vac,
